@@ -103,17 +103,19 @@ Section KProofs.
     v_lk : lockst;
     v_held : list (nat * nat * Z);        (* records the combiner has seen pending: (record, request word, argument) *)
     v_fin : list nat;                     (* records executed by the combiner whose req_Response store is outstanding *)
-    v_cand : option nat }.                (* record seen in state `removed` by loop 2 of compact_list *)
+    v_cand : option nat;                  (* record seen in state `removed` by loop 2 of compact_list *)
+    v_p : list (nat * nat * Z) }.         (* the requests remembered by the running fc_process loop (itPrev) *)
 
   (** the auxiliary state is a family of per-thread components (so that updating one component leaves the
       clauses about the others syntactically unchanged) plus the specification status of every thread *)
   Record aux := mkAux {
     x_my : nat -> option nat; x_ph : nat -> phase; x_lk : nat -> lockst;
     x_held : nat -> list (nat * nat * Z); x_fin : nat -> list nat; x_cand : nat -> option nat;
+    x_p : nat -> list (nat * nat * Z);
     x_st : nat -> status S }.
 
   Definition view (a : aux) (t : nat) : tview :=
-    mkTV (x_my a t) (x_ph a t) (x_lk a t) (x_held a t) (x_fin a t) (x_cand a t).
+    mkTV (x_my a t) (x_ph a t) (x_lk a t) (x_held a t) (x_fin a t) (x_cand a t) (x_p a t).
 
   Definition upd {A} (f : nat -> A) (t : nat) (x : A) : nat -> A := fun u => if Nat.eqb u t then x else f u.
   Lemma upd_same {A} (f : nat -> A) t x : upd f t x t = x.
@@ -121,21 +123,23 @@ Section KProofs.
   Lemma upd_other {A} (f : nat -> A) t x u : u <> t -> upd f t x u = f u.
   Proof. unfold upd. intros H. destruct (Nat.eqb_spec u t); congruence. Qed.
 
-  Definition set_my a t x := mkAux (upd (x_my a) t x) (x_ph a) (x_lk a) (x_held a) (x_fin a) (x_cand a) (x_st a).
-  Definition set_ph a t x := mkAux (x_my a) (upd (x_ph a) t x) (x_lk a) (x_held a) (x_fin a) (x_cand a) (x_st a).
-  Definition set_lk a t x := mkAux (x_my a) (x_ph a) (upd (x_lk a) t x) (x_held a) (x_fin a) (x_cand a) (x_st a).
-  Definition set_held a t x := mkAux (x_my a) (x_ph a) (x_lk a) (upd (x_held a) t x) (x_fin a) (x_cand a) (x_st a).
-  Definition set_fin a t x := mkAux (x_my a) (x_ph a) (x_lk a) (x_held a) (upd (x_fin a) t x) (x_cand a) (x_st a).
-  Definition set_cand a t x := mkAux (x_my a) (x_ph a) (x_lk a) (x_held a) (x_fin a) (upd (x_cand a) t x) (x_st a).
-  Definition set_st a t x := mkAux (x_my a) (x_ph a) (x_lk a) (x_held a) (x_fin a) (x_cand a) (upd (x_st a) t x).
+  Definition set_my a t x := mkAux (upd (x_my a) t x) (x_ph a) (x_lk a) (x_held a) (x_fin a) (x_cand a) (x_p a) (x_st a).
+  Definition set_ph a t x := mkAux (x_my a) (upd (x_ph a) t x) (x_lk a) (x_held a) (x_fin a) (x_cand a) (x_p a) (x_st a).
+  Definition set_lk a t x := mkAux (x_my a) (x_ph a) (upd (x_lk a) t x) (x_held a) (x_fin a) (x_cand a) (x_p a) (x_st a).
+  Definition set_held a t x := mkAux (x_my a) (x_ph a) (x_lk a) (upd (x_held a) t x) (x_fin a) (x_cand a) (x_p a) (x_st a).
+  Definition set_fin a t x := mkAux (x_my a) (x_ph a) (x_lk a) (x_held a) (upd (x_fin a) t x) (x_cand a) (x_p a) (x_st a).
+  Definition set_cand a t x := mkAux (x_my a) (x_ph a) (x_lk a) (x_held a) (x_fin a) (upd (x_cand a) t x) (x_p a) (x_st a).
+  Definition set_p a t x := mkAux (x_my a) (x_ph a) (x_lk a) (x_held a) (x_fin a) (x_cand a) (upd (x_p a) t x) (x_st a).
+  Definition set_st a t x := mkAux (x_my a) (x_ph a) (x_lk a) (x_held a) (x_fin a) (x_cand a) (x_p a) (upd (x_st a) t x).
 
   (** the same updates on a view *)
-  Definition vmy l x := mkTV x (v_ph l) (v_lk l) (v_held l) (v_fin l) (v_cand l).
-  Definition vph l x := mkTV (v_my l) x (v_lk l) (v_held l) (v_fin l) (v_cand l).
-  Definition vlk l x := mkTV (v_my l) (v_ph l) x (v_held l) (v_fin l) (v_cand l).
-  Definition vheld l x := mkTV (v_my l) (v_ph l) (v_lk l) x (v_fin l) (v_cand l).
-  Definition vfin l x := mkTV (v_my l) (v_ph l) (v_lk l) (v_held l) x (v_cand l).
-  Definition vcand l x := mkTV (v_my l) (v_ph l) (v_lk l) (v_held l) (v_fin l) x.
+  Definition vmy l x := mkTV x (v_ph l) (v_lk l) (v_held l) (v_fin l) (v_cand l) (v_p l).
+  Definition vph l x := mkTV (v_my l) x (v_lk l) (v_held l) (v_fin l) (v_cand l) (v_p l).
+  Definition vlk l x := mkTV (v_my l) (v_ph l) x (v_held l) (v_fin l) (v_cand l) (v_p l).
+  Definition vheld l x := mkTV (v_my l) (v_ph l) (v_lk l) x (v_fin l) (v_cand l) (v_p l).
+  Definition vfin l x := mkTV (v_my l) (v_ph l) (v_lk l) (v_held l) x (v_cand l) (v_p l).
+  Definition vcand l x := mkTV (v_my l) (v_ph l) (v_lk l) (v_held l) (v_fin l) x (v_p l).
+  Definition vp l x := mkTV (v_my l) (v_ph l) (v_lk l) (v_held l) (v_fin l) (v_cand l) x.
 
   Lemma frame_refl a t : Conc.frame view t a a.
   Proof. intros t' H. reflexivity. Qed.
@@ -149,6 +153,7 @@ Section KProofs.
   Lemma frame_set_held a t x : Conc.frame view t a (set_held a t x). Proof. frame_tac. Qed.
   Lemma frame_set_fin a t x : Conc.frame view t a (set_fin a t x). Proof. frame_tac. Qed.
   Lemma frame_set_cand a t x : Conc.frame view t a (set_cand a t x). Proof. frame_tac. Qed.
+  Lemma frame_set_p a t x : Conc.frame view t a (set_p a t x). Proof. frame_tac. Qed.
   Lemma frame_set_st a t u x : Conc.frame view t a (set_st a u x). Proof. intros t' H. reflexivity. Qed.
 
   Ltac view_tac := unfold view; cbn; rewrite ?upd_same; reflexivity.
@@ -158,6 +163,7 @@ Section KProofs.
   Lemma view_set_held a t x : view (set_held a t x) t = vheld (view a t) x. Proof. view_tac. Qed.
   Lemma view_set_fin a t x : view (set_fin a t x) t = vfin (view a t) x. Proof. view_tac. Qed.
   Lemma view_set_cand a t x : view (set_cand a t x) t = vcand (view a t) x. Proof. view_tac. Qed.
+  Lemma view_set_p a t x : view (set_p a t x) t = vp (view a t) x. Proof. view_tac. Qed.
   Lemma view_set_st a t u x : view (set_st a u x) t = view a t. Proof. reflexivity. Qed.
 
   Definition unowned (a : aux) (r : nat) : Prop := forall t, x_my a t <> Some r.
@@ -189,7 +195,7 @@ Section KProofs.
     | PRel _ _ _, None => False
     end.
 
-  Record Rest (g : G) (a : aux) (tr : list (nat * ev)) : Prop := {
+  Record RestC (c : St S) (g : G) (a : aux) (tr : list (nat * ev)) : Prop := {
     r_inj : forall t t' r, x_my a t = Some r -> x_my a t' = Some r -> t = t';
     r_alloc : forall t r, x_my a t = Some r -> r < g_nrec g;
     r_fresh : forall r, g_nrec g <= r -> r_state (recs g r) <> st_removed;
@@ -201,7 +207,11 @@ Section KProofs.
                x_lk a t = LInside /\ r_req (recs g q) = o /\ 2 <= o /\ r_arg (recs g q) = x /\ ~ In q (x_fin a t);
     r_fin : forall t q, In q (x_fin a t) ->
                x_lk a t = LInside /\ exists t' op arg, x_my a t' = Some q /\ x_ph a t' = PWait op arg;
-    r_lp : lp_run lp_init (annot tr) = Some (g_cont g, x_st a) }.
+    r_lp : lp_run lp_init (annot tr) = Some (c, x_st a);
+    r_p : forall t e, In e (x_p a t) -> In e (x_held a t);
+    r_nodup : forall t, NoDup (x_fin a t) }.
+
+  Notation Rest g a tr := (RestC (g_cont g) g a tr).
 
   Definition Inv (g : G) (a : aux) (tr : list (nat * ev)) : Prop :=
     LkInv g a tr /\ (has_lost tr = true \/ Rest g a tr).
@@ -292,6 +302,8 @@ Section KProofs.
       destruct (Hs q) as (E1 & E2 & E3 & E4). rewrite E1, E3. auto.
     - exact r_fin0.
     - rewrite annot_app, neutral_annot, app_nil_r, Ec; auto.
+    - exact r_p0.
+    - exact r_nodup0.
   Qed.
 
   Lemma Inv_neutral g g' a tr t es :
@@ -456,24 +468,24 @@ Section KProofs.
       apply Rest_set_lk; auto. apply Rest_trace; auto.
   Qed.
 
-  Lemma Rest_set_held_sub g a tr t h :
-    Rest g a tr -> (forall e, In e h -> In e (x_held a t)) -> Rest g (set_held a t h) tr.
+  Lemma Rest_clear g a tr t : Rest g a tr -> Rest g (set_held (set_p a t []) t []) tr.
   Proof.
-    intros R Hsub. destruct R. split; try assumption.
-    intros t0 q o z Hin. cbn in Hin. unfold upd in Hin. destruct (Nat.eqb_spec t0 t) as [->|Hne].
-    - apply r_held0. apply Hsub. exact Hin.
-    - apply r_held0. exact Hin.
+    intros R. destruct R. split; try assumption.
+    - intros t0 q o z Hin. cbn in Hin. unfold upd in Hin. destruct (Nat.eqb_spec t0 t) as [->|Hne]; [destruct Hin|].
+      apply r_held0. exact Hin.
+    - intros t0 e Hin. cbn in *. unfold upd in *. destruct (Nat.eqb_spec t0 t) as [->|Hne]; [destruct Hin|]. apply r_p0. exact Hin.
   Qed.
 
   (** "unlock" event: leaves the combiner role; nothing executed may be left without its response store *)
   Lemma safe_emit_unlock R t (k : prog R) l Q :
-    v_lk l = LInside -> v_fin l = [] -> safe t k (vheld (vlk l LHeld) []) Q ->
+    v_lk l = LInside -> v_fin l = [] -> safe t k (vlk (vheld (vp l []) []) LHeld) Q ->
     safe t (Emit [EvCli "unlock" []] k) l Q.
   Proof.
     intros Hl Hf K. cbn [Conc.safe]. intros g a tr [HL HR] Hv.
     pose proof (view_lk Hv) as Elk. rewrite Hl in Elk. pose proof (view_fin Hv) as Efin. rewrite Hf in Efin.
-    exists (set_lk (set_held a t []) t LHeld).
-    split; [|split; [eapply frame_trans; [apply frame_set_held|apply frame_set_lk]|rewrite view_set_lk, view_set_held, Hv; exact K]].
+    exists (set_lk (set_held (set_p a t []) t []) t LHeld).
+    split; [|split; [eapply frame_trans; [eapply frame_trans; [apply frame_set_p|apply frame_set_held]|apply frame_set_lk]
+                    |rewrite view_set_lk, view_set_held, view_set_p, Hv; exact K]].
     destruct HL as [L1 L2 (h & L3 & L4)].
     assert (Hoth : forall t0, t0 <> t -> x_lk a t0 = LNone).
     { intros t0 Hne. destruct (x_lk a t0) eqn:E; auto; exfalso; apply Hne; apply L2; congruence. }
@@ -489,7 +501,7 @@ Section KProofs.
         rewrite (Hoth t0 Hne). split; discriminate.
     - destruct HR as [Hlost|HR]; [left; apply lost_mono; exact Hlost|right].
       apply Rest_set_lk.
-      + apply Rest_set_held_sub; [apply Rest_trace; auto|intros e []].
+      + apply Rest_clear. apply Rest_trace; auto.
       + intros e He. cbn in He. rewrite upd_same in He. destruct He.
       + intros q Hq. cbn in Hq. rewrite Efin in Hq. destruct Hq.
   Qed.
@@ -540,9 +552,11 @@ Section KProofs.
       destruct Hi' as [HL HR]. split; [apply LkInv_set_held; exact HL|].
       destruct HR as [Hlost|HR]; [left; exact Hlost|right].
       destruct HR. split; try assumption.
-      intros t0 q o z Hin. cbn in Hin. unfold upd in Hin. destruct (Nat.eqb_spec t0 t) as [->|Hne]; [|apply r_held0; exact Hin].
-      destruct Hin as [E|Hin]; [|apply r_held0; rewrite Eheld; exact Hin]. inversion E; subst q o z.
-      rewrite Efin. repeat split; auto.
+      + intros t0 q o z Hin. cbn in Hin. unfold upd in Hin. destruct (Nat.eqb_spec t0 t) as [->|Hne]; [|apply r_held0; exact Hin].
+        destruct Hin as [E|Hin]; [|apply r_held0; rewrite Eheld; exact Hin]. inversion E; subst q o z.
+        cbn [set_held x_fin x_lk]. rewrite Efin. repeat split; auto.
+      + intros t0 e Hin. cbn in *. unfold upd. destruct (Nat.eqb_spec t0 t) as [->|Hne]; [|apply r_p0; exact Hin].
+        right. rewrite <- Eheld. apply r_p0. exact Hin.
     - exists a. split; [exact Hi'|]. split; [apply frame_refl|]. rewrite Hv. apply K1. exact Hlt.
   Qed.
 
@@ -565,4 +579,660 @@ Section KProofs.
       destruct (le_lt_dec (g_nrec g) r) as [Hle|Hlt]; [|exact Hlt]. exfalso. apply (r_fresh0 r Hle). exact E.
     - exists a. split; [exact Hi'|]. split; [apply frame_refl|]. rewrite Hv. apply K1. exact Hne.
   Qed.
+
+  Lemma phase_ok_transfer g g' a a' t :
+    x_ph a' t = x_ph a t -> x_my a' t = x_my a t -> x_st a' t = x_st a t ->
+    (forall r, x_my a t = Some r -> same_at g g' r /\ (in_fin a' r <-> in_fin a r)) ->
+    phase_ok g a t -> phase_ok g' a' t.
+  Proof.
+    intros E1 E2 E3 Hs. unfold phase_ok. rewrite E1, E2, E3.
+    destruct (x_ph a t) as [|op arg|op arg|op arg rs]; destruct (x_my a t) as [r|]; auto.
+    - intros [H1 H2]. split; auto. intros r0 E. inversion E; subst r0. destruct (Hs r eq_refl) as ((F1 & _) & _). rewrite F1. auto.
+    - intros [H1 H2]. split; auto. intros r0 E. discriminate.
+    - intros (H0 & H1 & H2). repeat split; auto. intros r0 E. inversion E; subst r0. destruct (Hs r eq_refl) as ((F1 & _) & _). rewrite F1. auto.
+    - intros (H0 & H1 & H2). repeat split; auto. intros r0 E. discriminate.
+    - destruct (Hs r eq_refl) as ((F1 & F2 & F3 & F4) & Hf). unfold wait_ok. rewrite F1, F2, F3, F4, E3. rewrite Hf. tauto.
+    - destruct (Hs r eq_refl) as ((F1 & _) & _). rewrite F1. auto.
+  Qed.
+
+  Lemma same_at_refl (g : G) r : same_at g g r.
+  Proof. repeat split. Qed.
+
+  Lemma same_at_upd_other (g : G) q x r : r <> q -> same_at g (upd_rec g q x) r.
+  Proof. intros H. unfold same_at, recs, upd_rec; cbn. destruct (Nat.eqb_spec r q); [congruence|]. repeat split. Qed.
+
+  (** operation_done: the response word of an executed request (the stores are issued in execution order) *)
+  Lemma safe_done R t q rest (k : V -> prog R) l Q :
+    v_lk l = LInside -> v_fin l = q :: rest ->
+    (forall v, safe t (k v) (vfin l rest) Q) ->
+    safe t (Act (@a_st (St S) (Res S) P q FReq req_Response) k) l Q.
+  Proof.
+    intros Hl Hq K. cbn [Conc.safe]. intros g a tr [HL HR] Hv.
+    pose proof (view_lk Hv) as Elk. rewrite Hl in Elk. pose proof (view_fin Hv) as Efin. rewrite Hq in Efin.
+    unfold a_st; cbn [fst snd].
+    set (g' := upd_rec g q (set_fld (g_recs g q) FReq req_Response)).
+    exists (set_fin a t rest).
+    split; [|split; [apply frame_set_fin|rewrite view_set_fin, Hv; apply K]].
+    split; [apply LkInv_set_fin; eapply LkInv_neutral; [exact HL|reflexivity|apply acc_neutral]|].
+    destruct HR as [Hlost|HR]; [left; apply lost_mono; exact Hlost|right].
+    pose proof HL as [L1 L2 _].
+    assert (Hfin_t : forall tc r0, In r0 (x_fin a tc) -> tc = t).
+    { intros tc r0 Hin. destruct (r_fin HR tc r0 Hin) as (A & _). apply L2; congruence. }
+    assert (Hqin : In q (x_fin a t)) by (rewrite Efin; left; reflexivity).
+    pose proof (r_nodup HR t) as Hnd. rewrite Efin in Hnd. apply NoDup_cons_iff in Hnd. destruct Hnd as [Hqn Hnd].
+    destruct (r_fin HR t q Hqin) as (_ & t' & op & arg & Hmy & Hph).
+    pose proof (r_phase HR t') as Hpo. unfold phase_ok in Hpo. rewrite Hph, Hmy in Hpo.
+    destruct Hpo as (Hok & Htid & Harg & Hcase).
+    assert (Hb : r_req (recs g q) = op /\ (exists res, x_st a t' = Linearized (dec op arg) res /\ r_res (recs g q) = res)).
+    { destruct Hcase as [(A & B & C)|[(A & B & C)|(A & B & C)]]; auto; exfalso; apply C; exists t; exact Hqin. }
+    destruct Hb as (Hreq & res & Hst & Hres).
+    assert (Hinfin : forall r0, r0 <> q -> (in_fin (set_fin a t rest) r0 <-> in_fin a r0)).
+    { intros r0 Hne. unfold in_fin; cbn. split.
+      - intros (tc & Hin). exists tc. unfold upd in Hin. destruct (Nat.eqb_spec tc t) as [E|Hn]; [|exact Hin].
+        subst tc. rewrite Efin. right. exact Hin.
+      - intros (tc & Hin). exists tc. unfold upd. destruct (Nat.eqb_spec tc t) as [E|Hn]; [|exact Hin].
+        subst tc. rewrite Efin in Hin. destruct Hin as [Hin|Hin]; [congruence|exact Hin]. }
+    assert (Hnotq : ~ in_fin (set_fin a t rest) q).
+    { intros (tc & Hin). cbn in Hin. unfold upd in Hin. destruct (Nat.eqb_spec tc t) as [E|Hn].
+      - contradiction.
+      - apply Hn. eapply Hfin_t; exact Hin. }
+    destruct HR. split.
+    - exact r_inj0.
+    - exact r_alloc0.
+    - intros r Hr. unfold g', recs, upd_rec; cbn. destruct (Nat.eqb_spec r q) as [->|]; [cbn|]; apply r_fresh0; exact Hr.
+    - intros r Hr. apply r_removed0. revert Hr. unfold g', recs, upd_rec; cbn. destruct (Nat.eqb_spec r q) as [->|]; auto.
+    - exact r_cand0.
+    - intros r Hr. apply r_owned0. revert Hr. unfold g', recs, upd_rec; cbn.
+      destruct (Nat.eqb_spec r q) as [->|]; auto. cbn. unfold req_Response, req_Operation. lia.
+    - intros t0. destruct (Nat.eq_dec t0 t') as [->|Hne].
+      + unfold phase_ok. cbn [set_fin x_ph x_my x_st]. rewrite Hph, Hmy. unfold wait_ok.
+        split; [exact Hok|]. unfold g', recs, upd_rec; cbn. rewrite Nat.eqb_refl. cbn.
+        split; [exact Htid|]. split; [exact Harg|]. right. right.
+        split; [reflexivity|]. split; [exists res; split; [exact Hst|exact Hres]|exact Hnotq].
+      + apply phase_ok_transfer with (g := g) (a := a); try reflexivity; [|apply r_phase0].
+        intros r0 Hr0. assert (r0 <> q) by (intros ->; apply Hne; eapply r_inj0; eauto).
+        split; [apply same_at_upd_other; assumption|apply Hinfin; assumption].
+    - intros t0 q' o z Hin. cbn [set_fin x_held x_lk x_fin] in *. destruct (r_held0 t0 q' o z Hin) as (A & B & C & D & E).
+      assert (q' <> q).
+      { intros ->. apply E. assert (t0 = t) by (apply L2; congruence). subst t0. exact Hqin. }
+      destruct (@same_at_upd_other g q (set_fld (g_recs g q) FReq req_Response) q' H) as (F1 & _ & F3 & _).
+      fold g' in F1, F3. rewrite F1, F3. repeat split; auto.
+      unfold upd. destruct (Nat.eqb_spec t0 t) as [->|]; auto. intros Hx. apply E. rewrite Efin. right. exact Hx.
+    - intros t0 q' Hin. cbn [set_fin x_fin x_lk x_my x_ph] in *. unfold upd in Hin.
+      destruct (Nat.eqb_spec t0 t) as [->|]; [|apply r_fin0; exact Hin].
+      apply r_fin0. rewrite Efin. right. exact Hin.
+    - rewrite annot_app, neutral_annot, app_nil_r by apply acc_neutral. exact r_lp0.
+    - exact r_p0.
+    - intros t0. cbn. unfold upd. destruct (Nat.eqb_spec t0 t) as [->|]; [exact Hnd|apply r_nodup0].
+  Qed.
+
+  Lemma in_fin_set_my a t x r : in_fin (set_my a t x) r <-> in_fin a r.
+  Proof. reflexivity. Qed.
+  Lemma in_fin_set_ph a t x r : in_fin (set_ph a t x) r <-> in_fin a r.
+  Proof. reflexivity. Qed.
+  Lemma in_fin_set_st a t x r : in_fin (set_st a t x) r <-> in_fin a r.
+  Proof. reflexivity. Qed.
+
+  (** New(): a fresh publication record *)
+  Lemma safe_new R t (k : V -> prog R) l Q :
+    v_my l = None ->
+    (forall r, safe t (k (vN r)) (vmy l (Some r)) Q) ->
+    safe t (Act (@a_new (St S) (Res S) rs0 P) k) l Q.
+  Proof.
+    intros Hm K. cbn [Conc.safe]. intros g a tr [HL HR] Hv. pose proof (view_my Hv) as Emy. rewrite Hm in Emy.
+    unfold a_new; cbn [fst snd]. set (r := g_nrec g).
+    set (g' := mkG (g_count g) (g_lock g) (fun i => if Nat.eqb i r then rec0 rs0 else g_recs g i) (Datatypes.S r) (g_cont g)).
+    assert (Hes : Forall neutral_ev [EvAcc KSt (obj_fld r FState) true]) by (repeat constructor).
+    exists (set_my a t (Some r)). split; [|split; [apply frame_set_my|rewrite view_set_my, Hv; apply K]].
+    split; [apply LkInv_set_my; eapply LkInv_neutral; [exact HL|reflexivity|exact Hes]|].
+    destruct HR as [Hlost|HR]; [left; apply lost_mono; exact Hlost|right].
+    assert (Hsame : forall r0, r0 <> r -> recs g' r0 = recs g r0).
+    { intros r0 Hne. unfold g', recs; cbn. destruct (Nat.eqb_spec r0 r); congruence. }
+    assert (Hnew : recs g' r = rec0 rs0).
+    { unfold g', recs; cbn. now rewrite Nat.eqb_refl. }
+    destruct HR. split.
+    - intros t1 t2 r0 H1 H2. cbn in H1, H2. unfold upd in *.
+      destruct (Nat.eqb_spec t1 t), (Nat.eqb_spec t2 t); subst; auto.
+      + inversion H1; subst r0. apply r_alloc0 in H2. unfold r in H2. lia.
+      + inversion H2; subst r0. apply r_alloc0 in H1. unfold r in H1. lia.
+      + eapply r_inj0; eauto.
+    - intros t0 r0 H0. cbn in H0. unfold upd in H0. unfold g'; cbn.
+      destruct (Nat.eqb_spec t0 t); [inversion H0; subst; lia|]. apply r_alloc0 in H0. unfold r. lia.
+    - intros r0 Hr0. unfold g' in Hr0; cbn in Hr0. rewrite Hsame by (unfold r; lia). apply r_fresh0. unfold r in *. lia.
+    - intros r0 Hr0 t0. destruct (Nat.eq_dec r0 r) as [->|Hne]; [rewrite Hnew in Hr0; discriminate|].
+      rewrite Hsame in Hr0 by exact Hne. cbn. unfold upd. destruct (Nat.eqb_spec t0 t); [congruence|]. apply r_removed0; exact Hr0.
+    - intros t0 r0 Hc. destruct (r_cand0 t0 r0 Hc) as [Hu Hlt]. split; [|unfold g'; cbn; unfold r; lia].
+      intros t1. cbn. unfold upd. destruct (Nat.eqb_spec t1 t); [|apply Hu]. unfold r. intros E; inversion E; lia.
+    - intros r0 Hr0. destruct (Nat.eq_dec r0 r) as [->|Hne]; [rewrite Hnew in Hr0; cbn in Hr0; unfold req_Operation in Hr0; lia|].
+      rewrite Hsame in Hr0 by exact Hne. destruct (r_owned0 r0 Hr0) as (t0 & Ht0). exists t0. cbn. unfold upd.
+      destruct (Nat.eqb_spec t0 t); [congruence|exact Ht0].
+    - intros t0. destruct (Nat.eq_dec t0 t) as [->|Hne].
+      + specialize (r_phase0 t). unfold phase_ok in *. cbn [set_my x_ph x_my x_st]. rewrite upd_same. rewrite Emy in r_phase0.
+        destruct (x_ph a t); try tauto.
+        * destruct r_phase0 as [A B]. split; auto. intros r0 E; inversion E; subst r0. rewrite Hnew. reflexivity.
+        * destruct r_phase0 as (A & B & C). repeat split; auto. intros r0 E; inversion E; subst r0. rewrite Hnew. reflexivity.
+      + apply phase_ok_transfer with (g := g) (a := a); try (cbn; rewrite ?upd_other by exact Hne; reflexivity); [|apply r_phase0].
+        intros r0 Hr0. split; [|apply in_fin_set_my]. unfold same_at. rewrite Hsame; [repeat split|].
+        apply r_alloc0 in Hr0. unfold r. lia.
+    - intros t0 q o z Hin. cbn [set_my x_held x_lk x_fin] in *. destruct (r_held0 t0 q o z Hin) as (A & B & C & D & E).
+      assert (q <> r).
+      { intros ->. destruct (r_owned0 r) as (t1 & Ht1); [rewrite B; exact C|]. apply r_alloc0 in Ht1. unfold r in Ht1. lia. }
+      rewrite Hsame by assumption. auto.
+    - intros t0 q Hin. cbn [set_my x_fin x_lk x_my x_ph] in *. destruct (r_fin0 t0 q Hin) as (A & t1 & op & arg & B & C).
+      split; [exact A|]. exists t1, op, arg. split; [|exact C]. unfold upd. destruct (Nat.eqb_spec t1 t); [congruence|exact B].
+    - rewrite annot_app, neutral_annot, app_nil_r by exact Hes. exact r_lp0.
+    - exact r_p0.
+    - exact r_nodup0.
+  Qed.
+
+  (** the requester stores its request word *)
+  Lemma safe_request R t r op arg (k : V -> prog R) l Q :
+    v_my l = Some r -> v_ph l = PInv op arg ->
+    (forall v, safe t (k v) (vph l (PWait op arg)) Q) ->
+    safe t (Act (@a_request (St S) (Res S) P r op t arg) k) l Q.
+  Proof.
+    intros Hm Hp K. cbn [Conc.safe]. intros g a tr [HL HR] Hv.
+    pose proof (view_my Hv) as Emy. rewrite Hm in Emy. pose proof (view_ph Hv) as Eph. rewrite Hp in Eph.
+    unfold a_request; cbn [fst snd]. set (g' := upd_rec g r (set_request (g_recs g r) op t arg)).
+    exists (set_ph a t (PWait op arg)). split; [|split; [apply frame_set_ph|rewrite view_set_ph, Hv; apply K]].
+    split; [apply LkInv_set_ph; eapply LkInv_neutral; [exact HL|reflexivity|apply acc_neutral]|].
+    destruct HR as [Hlost|HR]; [left; apply lost_mono; exact Hlost|right].
+    pose proof (r_phase HR t) as Hpo. unfold phase_ok in Hpo. rewrite Eph, Emy in Hpo. destruct Hpo as (Hok & Hst & Hreq).
+    specialize (Hreq r eq_refl).
+    assert (Hnew : r_req (recs g' r) = op /\ r_tid (recs g' r) = t /\ r_arg (recs g' r) = arg /\
+                   r_res (recs g' r) = r_res (recs g r) /\ r_state (recs g' r) = r_state (recs g r)).
+    { unfold g', recs, upd_rec; cbn. rewrite Nat.eqb_refl. repeat split. }
+    destruct Hnew as (N1 & N2 & N3 & N4 & N5).
+    assert (Hsame : forall r0, r0 <> r -> recs g' r0 = recs g r0).
+    { intros r0 Hne. unfold g', recs, upd_rec; cbn. destruct (Nat.eqb_spec r0 r); congruence. }
+    destruct HR. split.
+    - exact r_inj0.
+    - exact r_alloc0.
+    - intros r0 Hr0. destruct (Nat.eq_dec r0 r) as [->|Hne]; [rewrite N5|rewrite Hsame by exact Hne]; apply r_fresh0; exact Hr0.
+    - intros r0 Hr0. apply r_removed0. destruct (Nat.eq_dec r0 r) as [->|Hne]; [rewrite <- N5|rewrite <- Hsame by exact Hne]; exact Hr0.
+    - exact r_cand0.
+    - intros r0 Hr0. destruct (Nat.eq_dec r0 r) as [->|Hne]; [exists t; exact Emy|]. rewrite Hsame in Hr0 by exact Hne. auto.
+    - intros t0. destruct (Nat.eq_dec t0 t) as [->|Hne].
+      + unfold phase_ok. cbn [set_ph x_ph x_my x_st]. rewrite upd_same, Emy. unfold wait_ok. rewrite N1, N2, N3.
+        repeat split; auto. left. repeat split; auto.
+        intros (tc & Hin). destruct (r_fin0 tc r Hin) as (_ & t1 & op1 & arg1 & B & C).
+        assert (t1 = t) by (eapply r_inj0; eauto). subst t1. congruence.
+      + apply phase_ok_transfer with (g := g) (a := a); try (cbn; rewrite ?upd_other by exact Hne; reflexivity); [|apply r_phase0].
+        intros r0 Hr0. split; [|apply in_fin_set_ph]. unfold same_at. rewrite Hsame; [repeat split|].
+        intros ->. apply Hne. eapply r_inj0; eauto.
+    - intros t0 q o z Hin. cbn [set_ph x_held x_lk x_fin] in *. destruct (r_held0 t0 q o z Hin) as (A & B & C & D & E).
+      assert (q <> r) by (intros ->; rewrite Hreq in B; unfold req_Empty in B; lia).
+      rewrite Hsame by assumption. auto.
+    - intros t0 q Hin. cbn [set_ph x_fin x_lk x_my x_ph] in *. destruct (r_fin0 t0 q Hin) as (A & t1 & op1 & arg1 & B & C).
+      split; [exact A|]. exists t1, op1, arg1. split; [exact B|]. unfold upd. destruct (Nat.eqb_spec t1 t) as [->|]; [congruence|exact C].
+    - rewrite annot_app, neutral_annot, app_nil_r by apply acc_neutral. exact r_lp0.
+    - exact r_p0.
+    - exact r_nodup0.
+  Qed.
+
+  Lemma mon_quiet h t e :
+    is_cli "lock" e = false -> is_cli "unlock" e = false -> is_cli "exec" e = false -> is_cli "free" e = false ->
+    mon_step h (t, e) = Some h.
+  Proof. intros H1 H2 H3 H4. unfold mon_step, is_ev; cbn. now rewrite H1, H2, H3, H4. Qed.
+
+  Lemma LkInv_quiet g a tr t es :
+    LkInv g a tr -> (forall h, mon h (Conc.tag t es) = Some h) -> LkInv g a (tr ++ Conc.tag t es).
+  Proof.
+    intros [L1 L2 (h & L3 & L4)] Hm. split; auto. exists h. split; [|exact L4]. rewrite mon_app, L3. apply Hm.
+  Qed.
+
+  (** release_record.  If the request word is not req_Response the model emits "lost" *)
+  Lemma safe_release R t r op arg (k : V -> prog R) l Q :
+    v_my l = Some r -> v_ph l = PWait op arg ->
+    (forall rs, safe t (k (VR P rs)) (vph l (PRel op arg rs)) Q) ->
+    safe t (Act (@a_release (St S) (Res S) P r) k) l Q.
+  Proof.
+    intros Hm Hp K. cbn [Conc.safe]. intros g a tr [HL HR] Hv.
+    pose proof (view_my Hv) as Emy. rewrite Hm in Emy. pose proof (view_ph Hv) as Eph. rewrite Hp in Eph.
+    unfold a_release; cbn [fst snd]. set (g' := upd_rec g r (set_fld (g_recs g r) FReq req_Empty)).
+    set (rs := r_res (g_recs g r)).
+    exists (set_ph a t (PRel op arg rs)). split; [|split; [apply frame_set_ph|rewrite view_set_ph, Hv; apply K]].
+    assert (Hmon : forall h, mon h (Conc.tag t (acc g KSt r FReq true ++ (if Nat.eqb (r_req (g_recs g r)) req_Response then [] else [EvCli "lost" []]))) = Some h).
+    { intros h. unfold Conc.tag. rewrite map_app, mon_app.
+      change (map (pair t) (acc g KSt r FReq true)) with (Conc.tag t (acc g KSt r FReq true)).
+      rewrite neutral_mon by apply acc_neutral. destruct (Nat.eqb (r_req (g_recs g r)) req_Response); reflexivity. }
+    split; [apply LkInv_set_ph; apply LkInv_quiet; [destruct HL as [L1 L2 L3]; split; auto|exact Hmon]|].
+    destruct HR as [Hlost|HR]; [left; apply lost_mono; exact Hlost|].
+    destruct (Nat.eqb_spec (r_req (g_recs g r)) req_Response) as [Ereq|Nreq].
+    2:{ left. rewrite has_lost_app. apply orb_true_iff. right. unfold Conc.tag. rewrite map_app. unfold has_lost.
+        rewrite existsb_app. apply orb_true_iff. right. reflexivity. }
+    right. rewrite app_nil_r.
+    pose proof (r_phase HR t) as Hpo. unfold phase_ok in Hpo. rewrite Eph, Emy in Hpo. destruct Hpo as (Hok & Htid & Harg & Hcase).
+    assert (Hc : (exists res, x_st a t = Linearized (dec op arg) res /\ r_res (recs g r) = res) /\ ~ in_fin a r).
+    { pose proof (okop_ge2 Hok). unfold recs in Hcase. rewrite Ereq in Hcase. unfold req_Response in Hcase.
+      destruct Hcase as [(A & _)|[(A & _)|(_ & B & C)]]; try lia. split; assumption. }
+    destruct Hc as ((res & Hst & Hres) & Hnf). unfold recs in Hres. fold rs in Hres. subst res.
+    assert (Hnew : r_req (recs g' r) = req_Empty /\ r_state (recs g' r) = r_state (recs g r)).
+    { unfold g', recs, upd_rec; cbn. rewrite Nat.eqb_refl. split; reflexivity. }
+    destruct Hnew as (N1 & N5).
+    assert (Hsame : forall r0, r0 <> r -> recs g' r0 = recs g r0).
+    { intros r0 Hne. unfold g', recs, upd_rec; cbn. destruct (Nat.eqb_spec r0 r); congruence. }
+    destruct HR. split.
+    - exact r_inj0.
+    - exact r_alloc0.
+    - intros r0 Hr0. destruct (Nat.eq_dec r0 r) as [->|Hne]; [rewrite N5|rewrite Hsame by exact Hne]; apply r_fresh0; exact Hr0.
+    - intros r0 Hr0. apply r_removed0. destruct (Nat.eq_dec r0 r) as [->|Hne]; [rewrite <- N5|rewrite <- Hsame by exact Hne]; exact Hr0.
+    - exact r_cand0.
+    - intros r0 Hr0. destruct (Nat.eq_dec r0 r) as [->|Hne]; [rewrite N1 in Hr0; unfold req_Empty, req_Operation in Hr0; lia|].
+      rewrite Hsame in Hr0 by exact Hne. auto.
+    - intros t0. destruct (Nat.eq_dec t0 t) as [->|Hne].
+      + unfold phase_ok. cbn [set_ph x_ph x_my x_st]. rewrite upd_same, Emy. split; [exact N1|exact Hst].
+      + apply phase_ok_transfer with (g := g) (a := a); try (cbn; rewrite ?upd_other by exact Hne; reflexivity); [|apply r_phase0].
+        intros r0 Hr0. split; [|apply in_fin_set_ph]. unfold same_at. rewrite Hsame; [repeat split|].
+        intros ->. apply Hne. eapply r_inj0; eauto.
+    - intros t0 q o z Hin. cbn [set_ph x_held x_lk x_fin] in *. destruct (r_held0 t0 q o z Hin) as (A & B & C & D & E).
+      assert (q <> r) by (intros ->; unfold recs in B; rewrite Ereq in B; unfold req_Response in B; lia).
+      rewrite Hsame by assumption. auto.
+    - intros t0 q Hin. cbn [set_ph x_fin x_lk x_my x_ph] in *. destruct (r_fin0 t0 q Hin) as (A & t1 & op1 & arg1 & B & C).
+      split; [exact A|]. exists t1, op1, arg1. split; [exact B|]. unfold upd. destruct (Nat.eqb_spec t1 t) as [->|]; [|exact C].
+      exfalso. apply Hnf. exists t0. congruence.
+    - rewrite annot_app, neutral_annot, app_nil_r by apply acc_neutral. exact r_lp0.
+    - exact r_p0.
+    - exact r_nodup0.
+  Qed.
+
+  (** invocation event *)
+  Lemma safe_emit_inv R t op arg (k : prog R) l Q :
+    v_ph l = PIdle -> okop op = true -> safe t k (vph l (PInv op arg)) Q ->
+    safe t (Emit [EvCli "inv" [Z.of_nat op; arg]] k) l Q.
+  Proof.
+    intros Hp Hok K. cbn [Conc.safe]. intros g a tr [HL HR] Hv. pose proof (view_ph Hv) as Eph. rewrite Hp in Eph.
+    exists (set_st (set_ph a t (PInv op arg)) t (Pending (dec op arg))).
+    split; [|split; [eapply frame_trans; [apply frame_set_ph|apply frame_set_st]|rewrite view_set_st, view_set_ph, Hv; exact K]].
+    split; [apply LkInv_set_st; apply LkInv_set_ph; apply LkInv_quiet; [exact HL|reflexivity]|].
+    destruct HR as [Hlost|HR]; [left; apply lost_mono; exact Hlost|right].
+    pose proof (r_phase HR t) as Hpo. unfold phase_ok in Hpo. rewrite Eph in Hpo. destruct Hpo as (Hst & Hreq).
+    destruct HR. split; try assumption.
+    - intros t0. destruct (Nat.eq_dec t0 t) as [->|Hne].
+      + unfold phase_ok. cbn [set_st set_ph x_ph x_my x_st]. rewrite !upd_same. repeat split; auto.
+      + apply phase_ok_transfer with (g := g) (a := a); try (cbn; rewrite ?upd_other by exact Hne; reflexivity); [|apply r_phase0].
+        intros r0 Hr0. split; [apply same_at_refl|reflexivity].
+    - intros t0 q Hin. cbn [set_st set_ph x_fin x_lk x_my x_ph] in *. destruct (r_fin0 t0 q Hin) as (A & t1 & op1 & arg1 & B & C).
+      split; [exact A|]. exists t1, op1, arg1. split; [exact B|]. unfold upd. destruct (Nat.eqb_spec t1 t) as [->|]; [congruence|exact C].
+    - rewrite annot_app. change (annot (Conc.tag t [EvCli "inv" [Z.of_nat op; arg]])) with [AInv t (dec (Z.to_nat (Z.of_nat op)) arg)].
+      rewrite Nat2Z.id, lp_run_app, r_lp0. cbn [lp_run lp_step]. rewrite Hst. reflexivity.
+  Qed.
+
+  (** response event: the value returned is the one the combiner wrote at the execution *)
+  Lemma safe_emit_ret R t op arg rs (k : prog R) l Q :
+    v_ph l = PRel op arg rs -> safe t k (vph l PIdle) Q ->
+    safe t (Emit [EvCli "ret" (rs_enc rs)] k) l Q.
+  Proof.
+    intros Hp K. cbn [Conc.safe]. intros g a tr [HL HR] Hv. pose proof (view_ph Hv) as Eph. rewrite Hp in Eph.
+    exists (set_st (set_ph a t PIdle) t Idle).
+    split; [|split; [eapply frame_trans; [apply frame_set_ph|apply frame_set_st]|rewrite view_set_st, view_set_ph, Hv; exact K]].
+    split; [apply LkInv_set_st; apply LkInv_set_ph; apply LkInv_quiet; [exact HL|reflexivity]|].
+    destruct HR as [Hlost|HR]; [left; apply lost_mono; exact Hlost|right].
+    pose proof (r_phase HR t) as Hpo. unfold phase_ok in Hpo. rewrite Eph in Hpo.
+    destruct (x_my a t) as [r|] eqn:Emy; [|destruct Hpo]. destruct Hpo as (Hreq & Hst).
+    destruct HR. split; try assumption.
+    - intros t0. destruct (Nat.eq_dec t0 t) as [->|Hne].
+      + unfold phase_ok. cbn [set_st set_ph x_ph x_my x_st]. rewrite !upd_same, Emy. split; auto. intros r0 E; inversion E; subst; exact Hreq.
+      + apply phase_ok_transfer with (g := g) (a := a); try (cbn; rewrite ?upd_other by exact Hne; reflexivity); [|apply r_phase0].
+        intros r0 Hr0. split; [apply same_at_refl|reflexivity].
+    - intros t0 q Hin. cbn [set_st set_ph x_fin x_lk x_my x_ph] in *. destruct (r_fin0 t0 q Hin) as (A & t1 & op1 & arg1 & B & C).
+      split; [exact A|]. exists t1, op1, arg1. split; [exact B|]. unfold upd. destruct (Nat.eqb_spec t1 t) as [->|]; [congruence|exact C].
+    - rewrite annot_app. change (annot (Conc.tag t [EvCli "ret" (rs_enc rs)])) with [ARes t (rdec (rs_enc rs))].
+      rewrite rdec_enc, lp_run_app, r_lp0. cbn [lp_run lp_step]. rewrite Hst.
+      assert (res_eqb S rs rs = true) as -> by (apply res_eqb_spec; reflexivity). reflexivity.
+  Qed.
+
+  (** thread exit: tls_cleanup marks the thread's record `removed` and the thread forgets it *)
+  Lemma safe_exit R t r (k : V -> prog R) l Q :
+    v_my l = Some r -> v_ph l = PIdle ->
+    (forall v, safe t (k v) (vmy l None) Q) ->
+    safe t (Act (@a_st (St S) (Res S) P r FState st_removed) k) l Q.
+  Proof.
+    intros Hm Hp K. cbn [Conc.safe]. intros g a tr [HL HR] Hv.
+    pose proof (view_my Hv) as Emy. rewrite Hm in Emy. pose proof (view_ph Hv) as Eph. rewrite Hp in Eph.
+    unfold a_st; cbn [fst snd]. set (g' := upd_rec g r (set_fld (g_recs g r) FState st_removed)).
+    exists (set_my a t None). split; [|split; [apply frame_set_my|rewrite view_set_my, Hv; apply K]].
+    split; [apply LkInv_set_my; eapply LkInv_neutral; [exact HL|reflexivity|apply acc_neutral]|].
+    destruct HR as [Hlost|HR]; [left; apply lost_mono; exact Hlost|right].
+    pose proof (r_phase HR t) as Hpo. unfold phase_ok in Hpo. rewrite Eph, Emy in Hpo. destruct Hpo as (Hst & Hreq).
+    specialize (Hreq r eq_refl).
+    assert (Hat : forall r0, same_at g g' r0).
+    { intros r0. unfold same_at, g', recs, upd_rec; cbn. destruct (Nat.eqb_spec r0 r) as [->|]; repeat split. }
+    assert (Hstate : forall r0, r0 <> r -> r_state (recs g' r0) = r_state (recs g r0)).
+    { intros r0 Hne. unfold g', recs, upd_rec; cbn. destruct (Nat.eqb_spec r0 r); congruence. }
+    destruct HR. split.
+    - intros t1 t2 r0 H1 H2. cbn in H1, H2. unfold upd in *.
+      destruct (Nat.eqb_spec t1 t), (Nat.eqb_spec t2 t); subst; try discriminate. eapply r_inj0; eauto.
+    - intros t0 r0 H0. cbn in H0. unfold upd in H0. destruct (Nat.eqb_spec t0 t); [discriminate|]. apply (r_alloc0 t0). exact H0.
+    - intros r0 Hr0. rewrite Hstate; [apply r_fresh0; exact Hr0|]. apply r_alloc0 in Emy. unfold g' in Hr0; cbn in Hr0. lia.
+    - intros r0 Hr0 t0. cbn. unfold upd. destruct (Nat.eqb_spec t0 t) as [->|Hne]; [discriminate|].
+      destruct (Nat.eq_dec r0 r) as [->|Hn]; [intros E; apply Hne; eapply r_inj0; eauto|].
+      rewrite Hstate in Hr0 by exact Hn. apply r_removed0; exact Hr0.
+    - intros t0 r0 Hc. destruct (r_cand0 t0 r0 Hc) as [Hu Hlt]. split; [|exact Hlt].
+      intros t1. cbn. unfold upd. destruct (Nat.eqb_spec t1 t); [discriminate|apply Hu].
+    - intros r0 Hr0. destruct (Hat r0) as (E1 & _). rewrite E1 in Hr0. destruct (r_owned0 r0 Hr0) as (t0 & Ht0).
+      exists t0. cbn. unfold upd. destruct (Nat.eqb_spec t0 t) as [->|]; [|exact Ht0].
+      rewrite Emy in Ht0. inversion Ht0; subst r0. rewrite Hreq in Hr0. unfold req_Empty, req_Operation in Hr0. lia.
+    - intros t0. destruct (Nat.eq_dec t0 t) as [->|Hne].
+      + unfold phase_ok. cbn [set_my x_ph x_my x_st]. rewrite upd_same, Eph. split; [exact Hst|discriminate].
+      + apply phase_ok_transfer with (g := g) (a := a); try (cbn; rewrite ?upd_other by exact Hne; reflexivity); [|apply r_phase0].
+        intros r0 Hr0. split; [apply Hat|apply in_fin_set_my].
+    - intros t0 q o z Hin. cbn [set_my x_held x_lk x_fin] in *. destruct (r_held0 t0 q o z Hin) as (A & B & C & D & E).
+      destruct (Hat q) as (E1 & _ & E3 & _). rewrite E1, E3. auto.
+    - intros t0 q Hin. cbn [set_my x_fin x_lk x_my x_ph] in *. destruct (r_fin0 t0 q Hin) as (A & t1 & op1 & arg1 & B & C).
+      split; [exact A|]. exists t1, op1, arg1. split; [|exact C]. unfold upd. destruct (Nat.eqb_spec t1 t) as [->|]; [congruence|exact B].
+    - rewrite annot_app, neutral_annot, app_nil_r by apply acc_neutral.
+      assert (g_cont g' = g_cont g) as -> by reflexivity. exact r_lp0.
+    - exact r_p0.
+    - exact r_nodup0.
+  Qed.
+
+  (** loop 2 of compact_list: the CAS that unlinks a record from the allocated list and frees it *)
+  Lemma safe_cas_free R t pp e d victim (k : V -> prog R) l Q :
+    v_lk l = LInside -> v_cand l = Some victim ->
+    (forall v, safe t (k v) l Q) ->
+    safe t (Act (@a_cas_free (St S) (Res S) rs0 P pp e d victim) k) l Q.
+  Proof.
+    intros Hl Hc K. cbn [Conc.safe]. intros g a tr [HL HR] Hv.
+    pose proof (view_lk Hv) as Elk. rewrite Hl in Elk. pose proof (view_cand Hv) as Ecand. rewrite Hc in Ecand.
+    unfold a_cas_free. destruct (Nat.eqb (get_fld (g_recs g pp) FNextA) e); cbn [fst snd].
+    2:{ exists a. split; [|split; [apply frame_refl|rewrite Hv; apply K]].
+        apply Inv_neutral with (g := g); [split; assumption|reflexivity|apply neutral_upd_refl|apply acc_neutral]. }
+    set (g1 := upd_rec g pp (set_fld (g_recs g pp) FNextA d)).
+    set (g' := upd_rec g1 victim (rec_poison rs0)).
+    exists a. split; [|split; [apply frame_refl|rewrite Hv; apply K]].
+    assert (Hmon : forall h, h = Some t -> mon h (Conc.tag t (acc g KCas pp FNextA true ++ [EvCli "free" []])) = Some h).
+    { intros h ->. unfold Conc.tag. rewrite map_app, mon_app.
+      change (map (pair t) (acc g KCas pp FNextA true)) with (Conc.tag t (acc g KCas pp FNextA true)).
+      rewrite neutral_mon by apply acc_neutral. cbn. unfold mon_step, is_ev; cbn. rewrite Nat.eqb_refl. reflexivity. }
+    split.
+    - destruct HL as [L1 L2 (h & L3 & L4)]. split; auto. exists h. split; [|exact L4].
+      rewrite mon_app, L3. apply Hmon. apply L4. exact Elk.
+    - destruct HR as [Hlost|HR]; [left; apply lost_mono; exact Hlost|right].
+      destruct (r_cand HR t Ecand) as [Hun Hlt].
+      assert (Hat : forall r0, r0 <> victim -> same_at g g' r0 /\ r_state (recs g' r0) = r_state (recs g r0)).
+      { intros r0 Hne. unfold same_at, g', g1, recs, upd_rec; cbn. destruct (Nat.eqb_spec r0 victim); [congruence|].
+        destruct (Nat.eqb_spec r0 pp) as [->|]; repeat split. }
+      assert (Hv0 : r_req (recs g' victim) = 0 /\ r_state (recs g' victim) = 0).
+      { unfold g', recs, upd_rec; cbn. rewrite Nat.eqb_refl. split; reflexivity. }
+      destruct HR. split.
+      + exact r_inj0.
+      + exact r_alloc0.
+      + intros r0 Hr0. destruct (Nat.eq_dec r0 victim) as [->|Hne]; [destruct Hv0 as [_ ->]; discriminate|].
+        destruct (Hat r0 Hne) as [_ ->]. apply r_fresh0. exact Hr0.
+      + intros r0 Hr0. destruct (Nat.eq_dec r0 victim) as [->|Hne]; [exact Hun|].
+        destruct (Hat r0 Hne) as [_ E]. rewrite E in Hr0. apply r_removed0; exact Hr0.
+      + exact r_cand0.
+      + intros r0 Hr0. destruct (Nat.eq_dec r0 victim) as [->|Hne]; [destruct Hv0 as [E _]; rewrite E in Hr0; unfold req_Operation in Hr0; lia|].
+        destruct (Hat r0 Hne) as [(E1 & _) _]. rewrite E1 in Hr0. auto.
+      + intros t0. apply phase_ok_ext_at with (g := g); [|apply r_phase0].
+        intros r0 Hr0. apply Hat. intros ->. apply (Hun t0). exact Hr0.
+      + intros t0 q o z Hin. destruct (r_held0 t0 q o z Hin) as (A & B & C & D & E).
+        assert (q <> victim).
+        { intros ->. destruct (r_owned0 victim) as (t1 & Ht1); [rewrite B; exact C|]. apply (Hun t1). exact Ht1. }
+        destruct (Hat q H) as [(E1 & _ & E3 & _) _]. rewrite E1, E3. auto.
+      + exact r_fin0.
+      + rewrite annot_app. assert (annot (Conc.tag t (acc g KCas pp FNextA true ++ [EvCli "free" []])) = []) as ->.
+        { unfold Conc.tag. rewrite map_app. unfold annot. rewrite flat_map_app.
+          change (flat_map annot1 (map (pair t) (acc g KCas pp FNextA true))) with (annot (Conc.tag t (acc g KCas pp FNextA true))).
+          rewrite neutral_annot by apply acc_neutral. reflexivity. }
+        rewrite app_nil_r. exact r_lp0.
+      + exact r_p0.
+      + exact r_nodup0.
+  Qed.
+
+  (** ** executing a pending request = its linearization point *)
+  Definition drop (q : nat) (h : list (nat * nat * Z)) : list (nat * nat * Z) :=
+    filter (fun e => negb (Nat.eqb (fst (fst e)) q)) h.
+
+  Lemma in_drop q h e : In e (drop q h) <-> In e h /\ fst (fst e) <> q.
+  Proof.
+    unfold drop. rewrite filter_In. destruct (Nat.eqb_spec (fst (fst e)) q); cbn; intuition congruence.
+  Qed.
+
+  Lemma RestC_set_cont c g a tr c0 : RestC c g a tr -> RestC c (set_cont g c0) a tr.
+  Proof. intros R. destruct R. split; assumption. Qed.
+
+  (** what the combiner knows about a record it has seen pending *)
+  Lemma held_info c g a tr t q o z :
+    RestC c g a tr -> (forall t1 t2, x_lk a t1 <> LNone -> x_lk a t2 <> LNone -> t1 = t2) ->
+    In (q, o, z) (x_held a t) ->
+    okop o = true /\ r_req (recs g q) = o /\ r_arg (recs g q) = z /\ x_lk a t = LInside /\ ~ In q (x_fin a t) /\
+    x_my a (r_tid (recs g q)) = Some q /\ x_ph a (r_tid (recs g q)) = PWait o z /\
+    x_st a (r_tid (recs g q)) = Pending (dec o z).
+  Proof.
+    intros R L2 Hin. destruct (r_held R t q o z Hin) as (A & B & C & D & E).
+    destruct (r_owned R q) as (t' & Hmy); [rewrite B; exact C|].
+    pose proof (r_phase R t') as Hpo. unfold phase_ok in Hpo. rewrite Hmy in Hpo.
+    destruct (x_ph a t') as [|op arg|op arg|op arg rs] eqn:Eph.
+    - destruct Hpo as [_ Hq]. rewrite (Hq q eq_refl) in B. unfold req_Empty in B. lia.
+    - destruct Hpo as (_ & _ & Hq). rewrite (Hq q eq_refl) in B. unfold req_Empty in B. lia.
+    - destruct Hpo as (Hok & Htid & Harg & Hcase).
+      destruct Hcase as [(F1 & F2 & F3)|[(F1 & F2 & F3)|(F1 & F2 & F3)]].
+      + assert (op = o) by congruence. assert (arg = z) by congruence. subst op arg. rewrite Htid.
+        repeat split; first [assumption|congruence].
+      + exfalso. destruct F3 as (tc & Hc). destruct (r_fin R tc q Hc) as (G1 & _).
+        assert (tc = t) by (apply L2; congruence). subst tc. contradiction.
+      + rewrite F1 in B. unfold req_Response in B. lia.
+    - destruct Hpo as [Hq _]. rewrite Hq in B. unfold req_Empty in B. lia.
+  Qed.
+
+  Definition lin_aux (a : aux) (t q t' : nat) (o : Op S) (rs : Res S) : aux :=
+    set_st (set_p (set_fin (set_held a t (drop q (x_held a t))) t (x_fin a t ++ [q])) t (drop q (x_p a t))) t' (Linearized o rs).
+
+  Lemma lin_one c g a tr t q o z :
+    RestC c g a tr -> (forall t1 t2, x_lk a t1 <> LNone -> x_lk a t2 <> LNone -> t1 = t2) ->
+    In (q, o, z) (x_held a t) ->
+    let x := recs g q in
+    let rs := snd (sstep S c (dec o z)) in
+    RestC (fst (sstep S c (dec o z))) (upd_rec g q (set_res x rs))
+          (lin_aux a t q (r_tid x) (dec o z) rs)
+          (tr ++ [(t, ev_exec rs_enc x rs)]).
+  Proof.
+    intros R L2 Hin x rs. subst x.
+    destruct (@held_info c g a tr t q o z R L2 Hin) as (Hok & Hreq & Harg & Hlk & Hnf & Hmy & Hph & Hst).
+    set (x := recs g q) in *. set (t' := r_tid x) in *.
+    set (g' := upd_rec g q (set_res x rs)).
+    assert (Hq : r_req (recs g' q) = r_req x /\ r_tid (recs g' q) = r_tid x /\ r_arg (recs g' q) = r_arg x /\
+                 r_res (recs g' q) = rs /\ r_state (recs g' q) = r_state x).
+    { unfold g', recs, upd_rec; cbn. rewrite Nat.eqb_refl. repeat split. }
+    destruct Hq as (Q1 & Q2 & Q3 & Q4 & Q5).
+    assert (Hsame : forall r0, r0 <> q -> recs g' r0 = recs g r0).
+    { intros r0 Hne. unfold g', recs, upd_rec; cbn. destruct (Nat.eqb_spec r0 q); congruence. }
+    assert (Hfin_t : forall tc r0, In r0 (x_fin a tc) -> tc = t).
+    { intros tc r0 Hc. destruct (r_fin R tc r0 Hc) as (A & _). apply L2; congruence. }
+    assert (Hinfin : forall r0, r0 <> q -> (in_fin (lin_aux a t q t' (dec o z) rs) r0 <-> in_fin a r0)).
+    { intros r0 Hne. unfold in_fin, lin_aux; cbn. split.
+      - intros (tc & Hc). exists tc. unfold upd in Hc. destruct (Nat.eqb_spec tc t) as [E|Hn]; [|exact Hc].
+        subst tc. apply in_app_or in Hc. destruct Hc as [Hc|[Hc|[]]]; [exact Hc|congruence].
+      - intros (tc & Hc). exists tc. unfold upd. destruct (Nat.eqb_spec tc t) as [E|Hn]; [|exact Hc].
+        subst tc. apply in_or_app. left. exact Hc. }
+    destruct R. split.
+    - exact r_inj0.
+    - exact r_alloc0.
+    - intros r0 Hr0. destruct (Nat.eq_dec r0 q) as [->|Hne]; [rewrite Q5|rewrite Hsame by exact Hne]; apply r_fresh0; exact Hr0.
+    - intros r0 Hr0. apply r_removed0. destruct (Nat.eq_dec r0 q) as [->|Hne]; [rewrite Q5 in Hr0|rewrite Hsame in Hr0 by exact Hne]; exact Hr0.
+    - exact r_cand0.
+    - intros r0 Hr0. apply r_owned0. destruct (Nat.eq_dec r0 q) as [->|Hne]; [rewrite Q1 in Hr0|rewrite Hsame in Hr0 by exact Hne]; exact Hr0.
+    - intros t0. destruct (Nat.eq_dec t0 t') as [->|Hne].
+      + unfold phase_ok, lin_aux. cbn [set_st set_p set_fin set_held x_ph x_my x_st]. rewrite Hph, Hmy. unfold wait_ok.
+        cbn [set_st set_p set_fin set_held x_st]. rewrite upd_same.
+        rewrite Q1, Q2, Q3, Q4. repeat split; auto. right. left. repeat split; auto.
+        * exists rs. split; reflexivity.
+        * exists t. cbn. rewrite upd_same. apply in_or_app. right. left. reflexivity.
+      + apply phase_ok_transfer with (g := g) (a := a); try (unfold lin_aux; cbn; rewrite ?upd_other by exact Hne; reflexivity); [|apply r_phase0].
+        intros r0 Hr0. assert (r0 <> q) by (intros ->; apply Hne; eapply r_inj0; eauto).
+        split; [unfold same_at; rewrite Hsame by assumption; repeat split|apply Hinfin; assumption].
+    - intros t0 q' o' z' Hin'. unfold lin_aux in *. cbn [set_st set_p set_fin set_held x_held x_lk x_fin] in *. unfold upd in *.
+      destruct (Nat.eqb_spec t0 t) as [E|Hne].
+      + subst t0. apply in_drop in Hin'. destruct Hin' as [Hin' Hneq]. cbn in Hneq.
+        destruct (r_held0 t q' o' z' Hin') as (A & B & C & D & E). rewrite Hsame by exact Hneq.
+        repeat split; auto. intros F. apply in_app_or in F. destruct F as [F|[F|[]]]; [contradiction|congruence].
+      + destruct (r_held0 t0 q' o' z' Hin') as (A & _). exfalso. apply Hne. apply L2; congruence.
+    - intros t0 q' Hin'. unfold lin_aux in *. cbn [set_st set_p set_fin set_held x_my x_ph x_lk x_fin] in *. unfold upd in Hin'.
+      destruct (Nat.eqb_spec t0 t) as [E|Hne].
+      + subst t0. apply in_app_or in Hin'. destruct Hin' as [Hin'|[<-|[]]]; [apply r_fin0; exact Hin'|split; [exact Hlk|exists t', o, z; split; assumption]].
+      + apply r_fin0. exact Hin'.
+    - rewrite annot_app. change (annot [(t, ev_exec rs_enc x rs)]) with [ALin (Sp:=S) (Z.to_nat (Z.of_nat (r_tid x)))].
+      rewrite Nat2Z.id, lp_run_app, r_lp0. cbn [lp_run lp_step]. fold t'. rewrite Hst. reflexivity.
+    - intros t0 e Hin'. unfold lin_aux in *. cbn [set_st set_p set_fin set_held x_p x_held] in *. unfold upd in *.
+      destruct (Nat.eqb_spec t0 t) as [E|Hne]; [|apply r_p0; exact Hin'].
+      subst t0. apply in_drop in Hin'. apply in_drop. split; [apply r_p0; tauto|tauto].
+    - intros t0. unfold lin_aux. cbn [set_st set_p set_fin set_held x_fin]. unfold upd.
+      destruct (Nat.eqb_spec t0 t) as [E|Hne]; [|apply r_nodup0].
+      subst t0. apply NoDup_app_disj; [apply r_nodup0|repeat constructor; intros []|].
+      intros y Hy [<-|[]]. contradiction.
+  Qed.
+(* ==DEV== *)
+  Lemma tag_app t (es1 es2 : list ev) : Conc.tag t (es1 ++ es2) = Conc.tag t es1 ++ Conc.tag t es2.
+  Proof. unfold Conc.tag. apply map_app. Qed.
+
+  Lemma mon_exec_holder t x rs : mon (Some t) [(t, ev_exec rs_enc x rs)] = Some (Some t).
+  Proof. cbn. unfold mon_step, is_ev; cbn. rewrite Nat.eqb_refl. reflexivity. Qed.
+
+  Lemma LkInv_lin_aux g a tr t q t' o rs : LkInv g a tr -> LkInv g (lin_aux a t q t' o rs) tr.
+  Proof. intros [L1 L2 L3]. split; assumption. Qed.
+
+  Lemma view_lin_aux a t q t' o rs :
+    view (lin_aux a t q t' o rs) t =
+    vp (vfin (vheld (view a t) (drop q (x_held a t))) (x_fin a t ++ [q])) (drop q (x_p a t)).
+  Proof. unfold view, lin_aux; cbn. rewrite !upd_same. reflexivity. Qed.
+
+  Lemma frame_lin_aux a t q t' o rs : Conc.frame view t a (lin_aux a t q t' o rs).
+  Proof. intros u Hu. unfold view, lin_aux; cbn. rewrite !upd_other by exact Hu. reflexivity. Qed.
+
+  (** fc_apply: the combiner executes a request it has seen pending *)
+  Lemma safe_apply R t r o z (k : V -> prog R) l Q :
+    v_lk l = LInside -> v_fin l = [] -> In (r, o, z) (v_held l) ->
+    (forall v, safe t (k v) (vp (vfin (vheld l (drop r (v_held l))) [r]) (drop r (v_p l))) Q) ->
+    safe t (Act (@a_apply (St S) (Res S) rs_enc capply P r) k) l Q.
+  Proof.
+    intros Hl Hf Hin K. cbn [Conc.safe]. intros g a tr [HL HR] Hv.
+    pose proof (view_lk Hv) as Elk. rewrite Hl in Elk. pose proof (view_fin Hv) as Efin. rewrite Hf in Efin.
+    pose proof (view_held Hv) as Eheld. rewrite <- Eheld in Hin.
+    unfold a_apply. set (x := g_recs g r).
+    destruct (capply (g_cont g) (r_req x) (r_arg x)) as [c' rs] eqn:Hcap. cbn [fst snd].
+    assert (Hview : forall t' oo, view (lin_aux a t r t' oo rs) t =
+                      vp (vfin (vheld l (drop r (v_held l))) [r]) (drop r (v_p l))).
+    { intros t' oo. rewrite view_lin_aux, Hv, Efin. rewrite <- Hv. reflexivity. }
+    destruct HR as [Hlost|HR].
+    - (* a request was lost earlier: only the lock part is maintained *)
+      exists (lin_aux a t r 0 (dec o z) rs).
+      split; [|split; [apply frame_lin_aux|rewrite Hview; apply K]].
+      split; [|left; apply lost_mono; exact Hlost].
+      apply LkInv_lin_aux. destruct HL as [L1 L2 (h & L3 & L4)]. split; auto.
+      exists h. split; [|exact L4]. rewrite tag_app, app_assoc, mon_app, mon_app, L3, neutral_mon by apply acc_neutral.
+      assert (h = Some t) as -> by (apply L4; exact Elk). apply mon_exec_holder.
+    - pose proof HL as [L1 L2 _].
+      destruct (@held_info (g_cont g) g a tr t r o z HR L2 Hin) as (Hok & Hreq & Harg & _).
+      unfold recs in Hreq, Harg. fold x in Hreq, Harg. rewrite Hreq, Harg, (capply_spec _ _ Hok) in Hcap.
+      exists (lin_aux a t r (r_tid x) (dec o z) rs).
+      split; [|split; [apply frame_lin_aux|rewrite Hview; apply K]].
+      split.
+      + apply LkInv_lin_aux. destruct HL as [L1' L2' (h & L3 & L4)]. split; auto.
+        exists h. split; [|exact L4]. rewrite tag_app, app_assoc, mon_app, mon_app, L3, neutral_mon by apply acc_neutral.
+        assert (h = Some t) as -> by (apply L4; exact Elk). apply mon_exec_holder.
+      + right. rewrite tag_app, app_assoc.
+        assert (R1 : Rest g a (tr ++ Conc.tag t (acc g KLd r FReq true))).
+        { eapply Rest_neutral; [exact HR|apply neutral_upd_refl|apply acc_neutral]. }
+        pose proof (@lin_one (g_cont g) g a _ t r o z R1 L2 Hin) as R2. cbn zeta in R2.
+        fold x in R2. rewrite Hcap in R2. cbn [fst snd] in R2.
+        apply RestC_set_cont with (c0 := c') in R2. exact R2.
+  Qed.
+
+  (** *** the same for the batch of requests completed by one fc_process iteration *)
+  Definition dropl (qs : list nat) (h : list (nat * nat * Z)) : list (nat * nat * Z) :=
+    fold_left (fun h q => drop q h) qs h.
+
+  Lemma in_dropl qs : forall h e, In e (dropl qs h) <-> In e h /\ ~ In (fst (fst e)) qs.
+  Proof.
+    induction qs as [|q qs IH]; intros h e; cbn [dropl fold_left]; [cbn; tauto|].
+    fold (dropl qs (drop q h)). rewrite IH, in_drop. cbn. intuition congruence.
+  Qed.
+
+  Definition env_of (g : G) : env := fun q => (r_req (recs g q), r_arg (recs g q)).
+
+  Fixpoint lin_many (a : aux) (t : nat) (g : G) (comps : list (nat * Res S)) : aux :=
+    match comps with
+    | [] => a
+    | (q, rs) :: rest =>
+        let x := recs g q in
+        lin_many (lin_aux a t q (r_tid x) (dec (r_req x) (r_arg x)) rs) t (upd_rec g q (set_res x rs)) rest
+    end.
+
+  Lemma view_lin_many comps : forall a t g,
+    view (lin_many a t g comps) t =
+    vp (vfin (vheld (view a t) (dropl (map fst comps) (x_held a t))) (x_fin a t ++ map fst comps)) (dropl (map fst comps) (x_p a t)).
+  Proof.
+    induction comps as [|[q rs] rest IH]; intros a t g; cbn [lin_many map fst dropl fold_left].
+    - rewrite app_nil_r. reflexivity.
+    - rewrite IH, view_lin_aux. unfold lin_aux; cbn. rewrite !upd_same. unfold dropl. rewrite <- app_assoc. reflexivity.
+  Qed.
+
+  Lemma frame_lin_many comps : forall a t g, Conc.frame view t a (lin_many a t g comps).
+  Proof.
+    induction comps as [|[q rs] rest IH]; intros a t g; cbn [lin_many]; [apply frame_refl|].
+    eapply frame_trans; [apply frame_lin_aux|apply IH].
+  Qed.
+
+  Lemma LkInv_lin_many comps : forall g0 a tr t g, LkInv g0 a tr -> LkInv g0 (lin_many a t g comps) tr.
+  Proof.
+    induction comps as [|[q rs] rest IH]; intros g0 a tr t g H; cbn [lin_many]; auto. apply IH. apply LkInv_lin_aux. exact H.
+  Qed.
+
+  Lemma mon_write_comps comps : forall (g : G) t,
+    mon (Some t) (Conc.tag t (snd (write_comps rs_enc g comps))) = Some (Some t).
+  Proof.
+    induction comps as [|[q rs] rest IH]; intros g t; cbn [write_comps]; [reflexivity|].
+    destruct (write_comps rs_enc (upd_rec g q (set_res (g_recs g q) rs)) rest) as [g' es] eqn:Hw. cbn [snd].
+    change (Conc.tag t (ev_exec rs_enc (g_recs g q) rs :: es)) with ((t, ev_exec rs_enc (g_recs g q) rs) :: Conc.tag t es).
+    cbn [mon]. unfold mon_step, is_ev; cbn. rewrite Nat.eqb_refl.
+    specialize (IH (upd_rec g q (set_res (g_recs g q) rs)) t). rewrite Hw in IH. exact IH.
+  Qed.
+
+  Lemma env_of_upd_res (g : G) q rs q' : env_of (upd_rec g q (set_res (g_recs g q) rs)) q' = env_of g q'.
+  Proof. unfold env_of, recs, upd_rec; cbn. destruct (Nat.eqb_spec q' q) as [->|]; reflexivity. Qed.
+
+  Lemma run_comps_ext rho rho' c cs : (forall q, rho' q = rho q) -> run_comps S dec rho c cs -> run_comps S dec rho' c cs.
+  Proof.
+    intros He. revert c. induction cs as [|[q rs] cs IH]; intros c; cbn; auto. unfold op_of. rewrite He. intros [A B]. split; auto.
+  Qed.
+
+  Lemma final_comps_ext rho rho' c cs : (forall q, rho' q = rho q) -> final_comps S dec rho' c cs = final_comps S dec rho c cs.
+  Proof.
+    intros He. revert c. induction cs as [|[q rs] cs IH]; intros c; cbn; auto. unfold op_of. rewrite He. apply IH.
+  Qed.
+
+  Lemma lin_many_ok comps : forall c g a tr t,
+    RestC c g a tr -> (forall t1 t2, x_lk a t1 <> LNone -> x_lk a t2 <> LNone -> t1 = t2) ->
+    (forall q, In q (map fst comps) -> exists o z, In (q, o, z) (x_held a t)) ->
+    NoDup (map fst comps) -> run_comps S dec (env_of g) c comps ->
+    RestC (final_comps S dec (env_of g) c comps) (fst (write_comps rs_enc g comps)) (lin_many a t g comps)
+          (tr ++ Conc.tag t (snd (write_comps rs_enc g comps))).
+  Proof.
+    induction comps as [|[q rs] rest IH]; intros c g a tr t R L2 Hheld Hnd Hrun.
+    - cbn. rewrite app_nil_r. exact R.
+    - cbn [write_comps lin_many final_comps].
+      destruct (write_comps rs_enc (upd_rec g q (set_res (g_recs g q) rs)) rest) as [g2 es] eqn:Hw. cbn [fst snd].
+      destruct (Hheld q (or_introl eq_refl)) as (o & z & Hin).
+      destruct (@held_info c g a tr t q o z R L2 Hin) as (Hok & Hreq & Harg & _).
+      cbn [run_comps] in Hrun. destruct Hrun as [Hrs Hrun]. unfold op_of, env_of in Hrs, Hrun; cbn [fst snd] in Hrs, Hrun.
+      pose proof (@lin_one c g a tr t q o z R L2 Hin) as R1. cbn zeta in R1.
+      unfold recs in *. rewrite Hreq, Harg in *. rewrite Hrs in R1.
+      cbn [map fst] in Hnd. apply NoDup_cons_iff in Hnd. destruct Hnd as [Hq Hnd].
+      change (Conc.tag t (ev_exec rs_enc (g_recs g q) rs :: es)) with ([(t, ev_exec rs_enc (g_recs g q) rs)] ++ Conc.tag t es).
+      rewrite app_assoc.
+      specialize (IH (fst (sstep S c (dec o z))) (upd_rec g q (set_res (g_recs g q) rs))
+                     (lin_aux a t q (r_tid (g_recs g q)) (dec o z) rs) (tr ++ [(t, ev_exec rs_enc (g_recs g q) rs)]) t R1).
+      rewrite Hw in IH. cbn [fst snd] in IH.
+      unfold op_of, env_of; cbn [fst snd]. unfold recs. rewrite Hreq, Harg.
+      rewrite <- (@final_comps_ext (env_of g) (env_of (upd_rec g q (set_res (g_recs g q) rs))) (fst (sstep S c (dec o z))) rest (fun q' => env_of_upd_res g q rs q')).
+      apply IH.
+      + exact L2.
+      + intros q' Hq'. destruct (Hheld q' (or_intror Hq')) as (o' & z' & Hin'). exists o', z'.
+        unfold lin_aux; cbn. rewrite upd_same. apply in_drop. split; [exact Hin'|]. cbn. intros ->. contradiction.
+      + exact Hnd.
+      + eapply run_comps_ext; [|exact Hrun]. intros; apply env_of_upd_res.
+  Qed.
+(* ==DEV2== *)
 End KProofs.
